@@ -1,1 +1,177 @@
-fn main(){}
+//! C04 — variant payload slot joining is lossless and matches the spec (core part: the pairs
+//! the generator must be able to cast, under the VM's spec semantics).
+use e1_abivm::c01::{self, Forms, Stats};
+use e1_abivm::c04::*;
+use e1_abivm::harness::*;
+use e1_abivm::ir::ListPolicy;
+use refabi::Ty;
+use serde_json::{json, Value};
+use std::collections::{BTreeMap, BTreeSet};
+use wit_bindgen_core::abi::{self as gen, WasmType};
+
+const CHUNK: usize = 32;
+const FLAT: Forms = Forms { flat: true, mem: false };
+
+fn wt_name(t: WasmType) -> String {
+    format!("{t:?}")
+}
+fn wt_parse(s: &str) -> WasmType {
+    *ALL_WASM_TYPES.iter().find(|t| wt_name(**t) == s).expect("wasm type name")
+}
+
+fn work_chunk(types: &[Ty]) -> Value {
+    vcommon::install_quiet_panic_hook();
+    let mut stats = Stats::default();
+    let mut pairs: BTreeSet<(String, String)> = BTreeSet::new();
+    let mut disagreements = Vec::new();
+    let mut findings = Vec::new();
+    let mut memo: BTreeMap<Ty, BTreeSet<String>> = BTreeMap::new();
+    let env = match Env::new(types) {
+        Ok(e) => e,
+        Err(m) => vcommon::machinery(&format!("C04 shapes must parse: {m}")),
+    };
+    for i in 0..types.len() {
+        match pairs_of_variant(&env, i) {
+            Ok(ps) => pairs.extend(ps.into_iter().map(|(a, j)| (wt_name(a), wt_name(j)))),
+            Err(e) => disagreements.push(e),
+        }
+        let fs = c01::check_type_forms(&env, i, ListPolicy::ElementWise, FLAT, &mut stats);
+        for f in fs {
+            let class = format!("variant-flat:{}", f.class);
+            let is_panic = f.class.starts_with("panic:");
+            let min = minimise(&types[i], &f.class, &mut memo, &mut |t| {
+                c01::classes_of_forms(t, FLAT).into_iter().map(|f| f.class).collect()
+            });
+            let fmin = c01::classes_of_forms(&min, FLAT).into_iter().find(|g| g.class == f.class).unwrap_or(f.clone());
+            let key = if is_panic { class.clone() } else { format!("{class}:{min}") };
+            let mut detail = fmin.detail.clone();
+            detail["class"] = json!(f.class);
+            detail["found_in"] = json!(types[i].to_string());
+            findings.push(json!({"key": key, "what": fmin.what, "detail": detail}));
+        }
+    }
+    json!({"pairs": pairs.into_iter().collect::<Vec<_>>(), "disagreements": disagreements, "findings": findings,
+           "cases": stats.cases, "comparisons": stats.comparisons, "nontrivial": stats.nontrivial, "outcomes": stats.outcomes.len(),
+           "types": types.len()})
+}
+
+fn main() {
+    let mut run = vcommon::Run::from_args("C04", "exploration");
+    vcommon::install_quiet_panic_hook();
+
+    if let Some(d) = run.replay_detail() {
+        if let Some(p) = d["pair"].as_array() {
+            let (a, j) = (wt_parse(p[0].as_str().unwrap()), wt_parse(p[1].as_str().unwrap()));
+            let mut st = PairStats::default();
+            let fs = check_pair(a, j, &mut st);
+            for f in &fs {
+                println!("  {}: {}", f.class, f.what);
+            }
+            println!("{}", if fs.is_empty() { "REPLAY: passes now" } else { "REPLAY: still fails" });
+            std::process::exit(if fs.is_empty() { 0 } else { 1 });
+        }
+        let ty = Ty::from_json(&d["type"]).unwrap_or_else(|e| vcommon::machinery(&format!("bad replay type: {e}")));
+        let class = d["class"].as_str().unwrap_or("").to_string();
+        let fs = c01::classes_of_forms(&ty, FLAT);
+        for f in &fs {
+            println!("  {}: {}", f.class, f.what);
+        }
+        let still = fs.iter().any(|f| f.class == class);
+        println!("{}", if still { "REPLAY: still fails" } else { "REPLAY: passes now" });
+        std::process::exit(if still { 1 } else { 0 });
+    }
+
+    let deep = run.thorough();
+    let max_len = 4;
+    let seqs = sequences(max_len);
+    let mut lattice: Vec<Ty> = seqs.iter().map(|s| seq_type(s)).collect();
+    let n_seqs = lattice.len();
+    let mut seen = BTreeSet::new();
+    lattice.retain(|t| seen.insert(t.clone()));
+    let shapes = variant_shapes(deep);
+    let n_shapes = shapes.len();
+    let mut all: Vec<Ty> = lattice.clone();
+    all.extend(shapes.iter().filter(|t| !seen.contains(*t)).cloned());
+    rotate(&mut all, run.seed);
+    let chunks: Vec<Vec<Ty>> = all.chunks(CHUNK).map(|c| c.to_vec()).collect();
+    let results = vcommon::par_map(chunks.len(), vcommon::ncpu(), |i| work_chunk(&chunks[i]));
+
+    let mut pairs: BTreeSet<(WasmType, WasmType)> = BTreeSet::new();
+    let mut disagreements: Vec<String> = Vec::new();
+    let mut tot: BTreeMap<&str, u64> = BTreeMap::new();
+    for r in &results {
+        for p in r["pairs"].as_array().unwrap() {
+            pairs.insert((wt_parse(p[0].as_str().unwrap()), wt_parse(p[1].as_str().unwrap())));
+        }
+        for d in r["disagreements"].as_array().unwrap() {
+            disagreements.push(d.as_str().unwrap().to_string());
+        }
+        for k in ["cases", "comparisons", "nontrivial", "outcomes", "types"] {
+            *tot.entry(k).or_insert(0) += r[k].as_u64().unwrap_or(0);
+        }
+    }
+    if !disagreements.is_empty() {
+        for d in disagreements.iter().take(10) {
+            eprintln!("  {d}");
+        }
+        vcommon::machinery(&format!(
+            "reference join disagrees with trusted wit-parser join on {} shapes, first: {}",
+            disagreements.len(),
+            disagreements[0]
+        ));
+    }
+    // the full 7x7 matrix of `cast`, for the record
+    let mut matrix = BTreeMap::new();
+    for a in ALL_WASM_TYPES {
+        for b in ALL_WASM_TYPES {
+            let r = match vcommon::catch(|| gen::cast(a, b)) {
+                Ok(c) => format!("{c:?}"),
+                Err(_) => "panics".to_string(),
+            };
+            matrix.insert(format!("{a:?}->{b:?}"), json!({"cast": r, "occurs_as_payload_to_joined": pairs.contains(&(a, b)), "occurs_as_joined_to_payload": pairs.contains(&(b, a))}));
+        }
+    }
+    let mut pst = PairStats::default();
+    let mut pair_samples = Vec::new();
+    for (a, j) in &pairs {
+        let fs = check_pair(*a, *j, &mut pst);
+        if pair_samples.len() < 6 && a != j {
+            pair_samples.push(json!({"payload": wt_name(*a), "joined": wt_name(*j), "lower_cast": matrix[&format!("{a:?}->{j:?}")]["cast"], "lift_cast": matrix[&format!("{j:?}->{a:?}")]["cast"]}));
+        }
+        for f in fs {
+            let mut detail = f.detail.clone();
+            detail["class"] = json!(f.class);
+            run.violation(&f.class, &f.what, detail);
+        }
+    }
+    for r in &results {
+        for f in r["findings"].as_array().cloned().unwrap_or_default() {
+            run.violation(f["key"].as_str().unwrap_or("?"), f["what"].as_str().unwrap_or(""), f["detail"].clone());
+        }
+    }
+    let nontrivial_pairs = pairs.iter().filter(|(a, j)| a != j).count();
+    let coverage = json!({
+        "evaluations": pst.conversions + tot["cases"],
+        "distinct_nontrivial": pst.nontrivial + tot["nontrivial"],
+        "rule": "pair part: one evaluation = (payload slot type, joined slot type, pointer width, bit pattern) converted up with cast(a,j) and back with cast(j,a); non-trivial when the cast is not Bitcast::None. shape part: one evaluation = (variant type, width, value) lowered flat and lifted by the recorded instruction stream; non-trivial when the VM executed a bitcast / store / case dispatch",
+        "exhaustive": true,
+        "join_lattice": {"alphabet": ALL_WASM_TYPES.iter().map(|t| wt_name(*t)).collect::<Vec<_>>(), "max_sequence_length": max_len, "sequences": n_seqs, "distinct_variant_types": lattice.len(), "slot": 3},
+        "variant_shapes": {"count": n_shapes, "depth": if deep {2} else {1}, "payload_alphabet": "Lc ∪ {list<u8>}; thorough: plus nested 2-case variants / options over {u32,u64,f32,f64,string}"},
+        "types_run_through_generator": tot["types"],
+        "pairs_occurring": pairs.len(),
+        "pairs_occurring_nontrivial": nontrivial_pairs,
+        "pair_conversions": pst.conversions,
+        "flat_cases": tot["cases"],
+        "flat_comparisons": tot["comparisons"],
+        "distinct_outcomes": tot["outcomes"],
+        "pointer_widths": [4, 8],
+        "cast_matrix": matrix,
+        "samples": pair_samples,
+    });
+    run.finish(coverage, vec![
+        "core part of C04 only: the generator must offer a cast for every (payload slot, joined slot) pair that valid WIT produces, and the instruction stream it emits must convert per the spec when Bitcast is given the spec's semantics; what each backend's perform_cast emits is checked by the E3/E4/E6 engines".into(),
+        "Bitcast semantics in the VM: f32<->i32, f64<->i64 reinterpret; i32->i64 zero-extend (the spec's rule; abi.rs does not document the variants), i64->i32 wrap; pointer/length are 4 or 8 bytes wide, pointer-or-i64 64 bits; conversions between them are zero-extension / wrap".into(),
+        "wit-parser's join is observed through push_flat on variants whose case i puts type t_i into flat slot 3; its erasure must equal the spec join for both pointer widths (disagreement = exit 2)".into(),
+        "bit patterns: boundary alphabets of 12 (32-bit) and 15 (64-bit) patterns, not all 2^32 / 2^64".into(),
+    ]);
+}
